@@ -272,10 +272,12 @@ def report(ctx, problems, limit=3):
 
 FINDING_PROBES = {
     # replay name -> scenario; these input classes are excluded from random generation
-    "findings/C08_same_entry_cond_and_unless.json": dict(
-        id="K1", names={"x": [["model", "attr"]]}, force_async=False, malformed=None,
+    # D35: the same guard twice in one list, spelled differently: the second wrapper is dropped as a duplicate key
+    # and the constructor's check then reports the spec as unresolved
+    "findings/C08_same_guard_twice_in_one_list.json": dict(
+        id="D35", names={"x": [["model", "attr"]]}, force_async=False, malformed=None,
         entries=[dict(group="cond", kind="expr", text="x", canon="x"),
-                 dict(group="unless", kind="expr", text="x", canon="x")],
+                 dict(group="cond", kind="expr", text="x ", canon="x ")],
         rounds=[{"model.x": "T"}]),
     # D10 (C05/C08): a coroutine guard used as an operand is called but never awaited
     "findings/C08_coroutine_guard_in_expression.json": dict(
@@ -465,7 +467,8 @@ def run(ctx):
         "operand of a chained comparison twice; with pure reads this is unobservable except in the read log)",
         "coroutine guards appear only as a bare name with one provider (finding D10: inside an expression they "
         "are never awaited)",
-        "entries of one transition are pairwise different and have different de-duplication keys (recorded "
-        "findings: the same entry in cond and unless is dropped; entries whose `unique_key` collide are rejected)",
+        "entries of one guard list (`cond`, or `unless`) of a transition are pairwise different and have different "
+        "de-duplication keys (the same entry twice in one list is one guard); the same entry once in `cond` and once "
+        "in `unless` is generated (D20, repaired)",
         "ASCII identifiers and single-line string literals without prefixes",
     ]
